@@ -954,8 +954,16 @@ def mon_recv_credit_soft(ctx, conn):
     pass
 
 
+def mon_closed_at_end(ctx, conn):
+    """a connection on which a GOAWAY was sent is closed, at the latest, when the peer has gone (`end`)"""
+    ga = any(n == "GA" for _, out in conn.steps for n, _ in parse_out(out))
+    for op, out in conn.steps:
+        if op.split(" ")[2] == "end" and ga and not out.startswith("ok returned"):
+            viol(ctx, conn, "connection-not-closed-after-goaway-and-disconnect", dict(out=out))
+
+
 def run_c10(ctx):
-    return run_family(ctx, ["srv-goaway", "srv-acct"], [lambda c, k: mon_goaway(c, k) and None, mon_conn_offence, mon_prompt_close_unmarked],
+    return run_family(ctx, ["srv-goaway", "srv-acct"], [lambda c, k: mon_goaway(c, k) and None, mon_conn_offence, mon_prompt_close_unmarked, mon_closed_at_end],
                       "srv-goaway: one of 21 connection-scoped offences (frame size, CONTINUATION sequencing, even/lower stream id, SETTINGS values, flow-control, compression, frames on idle streams, idle timeout, a trailer section without END_STREAM that goes on in CONTINUATION or cannot be decoded) after 0-3 requests (some still running) with trailing requests/pings.")
 
 
@@ -972,8 +980,8 @@ def run_c14(ctx):
 
 
 def run_c17(ctx):
-    return run_family(ctx, ["srv-soup", "srv-acct", "srv-limits"], [mon_no_panic_returns],
-                      "srv-soup: every 3rd (thorough: every) truncation offset of a recorded well-formed client byte stream followed by EOF; structure-aware mutations (frame delete/duplicate/insert, header or payload bit flip); random frame soups; each ends with EOF and ServeConn must return.")
+    return run_family(ctx, ["srv-soup", "srv-acct", "srv-limits", "srv-goaway"], [mon_no_panic_returns],
+                      "srv-goaway: connection offences among running requests, and the idle timer's GOAWAY racing new requests and an offence of the peer's own (ServeConn must return); srv-soup: every 3rd (thorough: every) truncation offset of a recorded well-formed client byte stream followed by EOF; structure-aware mutations (frame delete/duplicate/insert, header or payload bit flip); random frame soups; each ends with EOF and ServeConn must return.")
 
 
 def run_c18(ctx):
